@@ -100,10 +100,18 @@ func neutrinoProbe(r *evid.Run, cs int64) {
 	stop := make(chan struct{})
 	var wg sync.WaitGroup
 	wg.Add(2)
+	var pause int32
 	go func() { // subscriber
 		defer wg.Done()
 		n := 0
 		for {
+			for atomic.LoadInt32(&pause) == 1 {
+				select {
+				case <-stop:
+					return
+				case <-time.After(200 * time.Microsecond):
+				}
+			}
 			select {
 			case x, ok := <-client.Notifications():
 				if !ok {
@@ -146,7 +154,7 @@ func neutrinoProbe(r *evid.Run, cs int64) {
 	var delivered int32
 	height := int32(0)
 	prev := gen.BlockHash()
-	var sentBlocks, sentFiltered []int32
+	var sentBlocks, sentFiltered, sentProgress []int32
 	producer := func() {
 		for round := 0; round < rounds; round++ {
 			// the chain is nb blocks ahead of where the rescan starts
@@ -169,6 +177,19 @@ func neutrinoProbe(r *evid.Run, cs int64) {
 			if err := client.Rescan(&start, nil, nil); err != nil {
 				return
 			}
+			// every 8th rescan first passes three pre-birthday blocks at heights that
+			// are due a progress report (multiples of 10 000) while the subscriber is
+			// not reading: three reports queue up behind each other
+			if round%8 == 3 {
+				atomic.StoreInt32(&pause, 1)
+				for j := int32(1); j <= 3; j++ {
+					ph := chainhash.Hash{byte(j), byte(round), 0x77}
+					client.VerifOnBlockConnected(&ph, 10000*j, birthday.Add(-time.Hour))
+					sentProgress = append(sentProgress, 10000*j)
+				}
+				atomic.StoreInt32(&pause, 0)
+			}
+			sentProgress = append(sentProgress, height+1) // the report at the birthday boundary
 			for _, hd := range hds {
 				height++
 				h := hd.BlockHash()
@@ -214,13 +235,15 @@ func neutrinoProbe(r *evid.Run, cs int64) {
 	close(stop)
 	client.Stop()
 	wg.Wait()
-	var gb, gf []int32
+	var gb, gf, gp []int32
 	for _, g := range got {
 		switch g.kind {
 		case "BlockConnected":
 			gb = append(gb, g.height)
 		case "FilteredBlockConnected":
 			gf = append(gf, g.height)
+		case "RescanProgress":
+			gp = append(gp, g.height)
 		}
 	}
 	r.Hit("neutrino-rescans", rounds)
@@ -233,6 +256,11 @@ func neutrinoProbe(r *evid.Run, cs int64) {
 		r.Violation("c18:client:block-notifications-wrong", fmt.Sprintf("NeutrinoClient: FilteredBlockConnected heights received (%d) differ from the blocks delivered (%d)", len(gf), len(sentFiltered)), "client-neutrino", cs, nil)
 		return
 	}
+	if fmt.Sprint(gp) != fmt.Sprint(sentProgress) {
+		r.Violation("c18:client:progress-notifications-wrong", fmt.Sprintf("NeutrinoClient: RescanProgress heights received (%d) differ from the reports handed to the queue (%d): lost, duplicated or reordered", len(gp), len(sentProgress)), "client-neutrino", cs, map[string]any{"received_first": fmt.Sprint(head(gp, 40)), "handed_over_first": fmt.Sprint(head(sentProgress, 40))})
+		return
+	}
+	r.Hit("neutrino-progress-reports-queued-behind-each-other", len(sentProgress)-rounds)
 	r.Hit("neutrino-notifications-received-in-order", len(got))
 	r.Case("client-neutrino-probe", true)
 }
